@@ -6,7 +6,10 @@ GEN   specs/federation/FedFetch.tla   MC_FedFetch.cfg (refinement of FedFetchCon
                                       Gen_FedFetch.cfg (every plan of local + <=3 remotes x every answer order)
 RUN   harness/C18_federation/fetch_driver_test.go  (real Conn.CollectionGet / tryLocalThenRemotes /
                                       rewriteManifest, gated stub backends, generated manifests, tamperings)
-JUDGE specs/federation/FedFetchTrace.tla           (FedFetchContract)
+      harness/C18_controller/legacy_fetch_driver_test.go  (legacy path: real handler stack ->
+                                      fetchRemoteCollectionByPDH/ByUUID -> rewriteSignatures, gated HTTP servers
+                                      as local Rails API and remote clusters; FedFetch.tla with Variant = "legacy")
+JUDGE specs/federation/FedFetchTrace.tla           (FedFetchContract, both paths)
 """
 import os
 import random
@@ -43,10 +46,56 @@ def random_scenario(rnd, sid, seed):
                 req=rnd.choice(["exact"] * 5 + ["hints", "hints", "hexoff", "len"]), origin="random")
 
 
+def common_copies_identical():
+    srcs = []
+    for d in ("C18_federation", "C18_controller"):
+        src = open(os.path.join(vlib.VERIF, "harness", d, "c18_common_test.go")).read()
+        srcs.append("\n".join(ln for ln in src.splitlines() if not ln.startswith("package ")))
+    return srcs[0] == srcs[1]
+
+
+def legacy_stage(ctx, sd, rnd, mc):
+    """The legacy path lib/controller/fed_collections.go, same contract."""
+    pkg = "lib/controller"
+    mc(sd, "FedFetch", "MC_FedFetch_legacy.cfg", timeout=2400,
+       label="legacy variant, exhaustive: refinement, FirstIsHonest, ChanFits, termination")
+    got, r = ctx.gen(sd, "FedFetch", "Gen_FedFetch_legacy.cfg", timeout=2400, label="scenario emission (legacy variant)")
+    ctx.extra["legacy_scenarios_emitted"] = len(got)
+    scns = []
+    base = 3 * 10 ** 6
+    for rep in range(3 if ctx.thorough else 1):
+        for s in got:
+            s = dict(s)
+            s["id"] = base + len(scns) + 1
+            s["origin"] = "model"
+            s["path"] = "legacy"
+            s["rseed"] = ctx.seed * 11 + rep
+            s["req"] = ["exact", "exact", "hexoff", "exact", "len"][(s["id"] + rep + ctx.seed) % 5]
+            scns.append(s)
+    for i in range(4000 if ctx.thorough else 600):
+        s = random_scenario(rnd, base + 500000 + i, ctx.seed)
+        s["path"] = "legacy"
+        s["steps"] = [st for st in s["steps"] if st["k"] != "cancel"]     # no early cancels over HTTP (see driver)
+        if s["req"] == "hints":
+            s["req"] = "exact"              # a hash with hints is not a legacy by-PDH request (regexp), goes to Rails
+        if s["mode"] == "uuid" and s["home"] == 0:
+            s["home"] = 1                   # a local UUID is not handled by the legacy federation code
+            s["steps"] = [{"b": 1, "k": s["plan"][1]}]
+        scns.append(s)
+    scns.append(dict(id=base + 900000, n=1, mode="uuid", home=1, plan=["s404", "match", "s404", "s404", "s404"],
+                     steps=[{"b": 1, "k": "match"}], rseed=ctx.seed, req="exact", origin="crafted", craft="loc_eol",
+                     path="legacy"))
+    ov = ctx.harness_overlay(pkg, "harness/C18_controller", extra=PAM)
+    events, out = ctx.go_run_driver(pkg, ov, "TestVerifC18Legacy$", scns, timeout=1500)
+    return scns, events
+
+
 def run(ctx):
     sd = "specs/federation"
     pkg = "lib/controller/federation"
     rnd = random.Random(ctx.seed)
+    if not common_copies_identical():
+        raise vlib.InfraError("harness/C18_*/c18_common_test.go copies differ")
     mc = (lambda *a, **k: None) if os.environ.get("VERIF_DEV_SKIP_MC") else ctx.tlc   # development aid only
     mc(sd, "FedFetch", "MC_FedFetch_big.cfg" if ctx.thorough else "MC_FedFetch.cfg", timeout=2400,
        extra=["-coverage", "1"] if ctx.thorough else [],
@@ -78,6 +127,11 @@ def run(ctx):
     by_id = {s["id"]: s for s in scns}
     ov = ctx.harness_overlay(pkg, "harness/C18_federation", extra=PAM)
     events, out = ctx.go_run_driver(pkg, ov, "TestVerifC18$", scns, timeout=1500, race=ctx.thorough)
+    lscns, levents = legacy_stage(ctx, sd, rnd, mc)
+    scns += lscns
+    by_id.update({s["id"]: s for s in lscns})
+    events += levents
+    ctx.extra["legacy_traces"] = len(vlib.split_traces(levents))
     traces = vlib.split_traces(events)
     ctx.evaluations = len(traces)
     # impl-model prediction vs. real outcome, where what was really sent is what the model planned
@@ -105,7 +159,7 @@ def run(ctx):
         answers = tuple((e["b"], e["k"]) for e in t if e["ev"] == "answer")
         d = [e for e in t if e["ev"] == "done"]
         if len(answers) >= 2 and d:
-            nontrivial.add((t[0]["n"], t[0]["mode"], t[0].get("req"), answers, d[0]["ok"]))
+            nontrivial.add((t[0].get("path", "conn"), t[0]["n"], t[0]["mode"], t[0].get("req"), answers, d[0]["ok"]))
         if d and d[0]["ok"] and any(d[0]["rel"][1:]):
             nrew += 1
     ctx.extra["distinct_nontrivial"] = len(nontrivial)
@@ -118,7 +172,7 @@ def run(ctx):
                 "least two backend answers; distinct by (n, mode, request variant, answer sequence, outcome)")
     ctx.samples = [{"scenario": by_id.get(t[0].get("scn")), "trace": t}
                    for t in traces[:1] + traces[len(traces) // 3:len(traces) // 3 + 1] + traces[-2:]]
-    ctx.trusted_base = ["gated stub backends", "manifest generator and single-token tamperings",
+    ctx.trusted_base = ["gated stub backends", "gated HTTP servers as Rails API / remote clusters (legacy path)", "manifest generator and single-token tamperings",
                         "independent portable-data-hash (line/field tokenizer)",
                         "token-wise only-signatures-rewritten relation",
                         "pure-Go stub replacing localdb/login_pam.go (build only)"]
@@ -127,7 +181,13 @@ def run(ctx):
                        "Rails hash definitions disagree on it)",
                        "hang = no answer until the context is cancelled; the client cancels only when nothing "
                        "else can happen (model) or at a random point (random scenarios)",
-                       "legacy path lib/controller/fed_collections.go is not bound"]
+                       "legacy path: honest backends send only manifests rewriteSignatures can digest (every hinted "
+                       "locator has exactly one +A hint): it hashes any other token verbatim, so an honest manifest "
+                       "with a hinted but unsigned locator, or with two +A hints, is refused with 502 (fail-safe; such "
+                       "manifests are not what a Rails API returns to a reader); no early client cancel over HTTP; "
+                       "a requested hash with hints is not a legacy by-PDH request",
+                       "the local cluster's own answer may be handed over unverified (legacy path does that); the "
+                       "statement speaks about collections fetched from a remote cluster"]
 
 
 if __name__ == "__main__":
